@@ -30,6 +30,7 @@ var detLeaves = []detLeaf{
 	// DKLs23 round 3: pk_i = (additive share of the key + pseudo-random zero share derived from the session's pairwise
 	// seeds) * G: a function of the dealt key material and the session context only (rounds.go, przs.SampleZeroShare).
 	{"dkls23bbot", "DKLS23SignBBOTRound3/B", "$>pk>", "public key of the party's session-rerandomised additive key share: key material and session context, no fresh randomness"},
+	{"dkls23softspoken", "DKLS23SignRound4/B", "$>pk>", "the same value in the OT-extension variant (signing_softspoken Round4 broadcasts c.state.pk[self]): key material and session context, no fresh randomness"},
 	// Lindell17 round 4: the Paillier ciphertext c3 is encoded together with the modulus it lives in (N, N^2): the PRIMARY's
 	// public key, fixed key material. The ciphertext value itself ($>c3>c>tag5017>v>value…) is not listed and must change.
 	{"lindell17", "Lindell17Round4/U", "$>c3>c>tag5017>n>", paillierModulus},
